@@ -1,7 +1,7 @@
 """C03 — per-property knobs of ./check (see DESIGN.md §6 C03, notes/C03.md)."""
 import re
 THEOREMS_TIED = ["Rustic.Props.C03.every_prefix_consistent", "Rustic.Props.C03.publish_protocol_safe",
-                 "Rustic.Props.C03.prune_protocol_safe", "Rustic.Props.C03.prune_protocol_safe_all_options", "Rustic.Props.C03.monitor_sound",
+                 "Rustic.Props.C03.prune_protocol_safe", "Rustic.Props.C03.prune_protocol_safe_all_options", "Rustic.Props.C03.prune_full_protocol_safe", "Rustic.Props.C03.pruneOpsFull_in_phase_language", "Rustic.Props.C03.monitor_sound",
                  "Rustic.Props.C03.index_lists_only_written_packs", "Rustic.Props.C03.failed_op_reports_error"]
 
 TRUSTED = [
